@@ -347,6 +347,12 @@ func (pe *PolicyEngine) insertNamespace(ns *corev1.Namespace) error {
 }
 
 // checkConsistentLabelsForPodsOfSameOwner returns error if there are pod resources with same ownerReferences name but different labels
+// podOwnerKindAndName: an owner is identified, within its namespace, by its kind and its name
+// (a ReplicaSet and a Job of one name are two owners)
+func podOwnerKindAndName(pod *k8s.Pod) string {
+	return pod.Owner.Kind + string(types.Separator) + pod.Owner.Name
+}
+
 func (pe *PolicyEngine) checkConsistentLabelsForPodsOfSameOwner(newPod *k8s.Pod) error {
 	if newPod.Owner.Name == "" { // the new pod does not have owner references
 		return nil
@@ -354,9 +360,9 @@ func (pe *PolicyEngine) checkConsistentLabelsForPodsOfSameOwner(newPod *k8s.Pod)
 	if _, ok := pe.podOwnersToRepresentativePodMap[newPod.Namespace]; !ok { // add the new namespace to the map
 		pe.podOwnersToRepresentativePodMap[newPod.Namespace] = make(map[string]*k8s.Pod)
 	}
-	firstPod, ok := pe.podOwnersToRepresentativePodMap[newPod.Namespace][newPod.Owner.Name]
+	firstPod, ok := pe.podOwnersToRepresentativePodMap[newPod.Namespace][podOwnerKindAndName(newPod)]
 	if !ok { // add the new ownerReference with this new pod
-		pe.podOwnersToRepresentativePodMap[newPod.Namespace][newPod.Owner.Name] = newPod
+		pe.podOwnersToRepresentativePodMap[newPod.Namespace][podOwnerKindAndName(newPod)] = newPod
 		return nil
 	}
 	// compare the owner first pod's labels with new pod's Labels
@@ -552,21 +558,21 @@ func (pe *PolicyEngine) deletePod(p *corev1.Pod) error {
 // the deletedPod already deleted from pe.podsMap
 func (pe *PolicyEngine) updatePodOwnersToRepresentativePodMapIfRequired(deletedPod *k8s.Pod) {
 	// all existing pods' owners are in the map already
-	representativePod := pe.podOwnersToRepresentativePodMap[deletedPod.Namespace][deletedPod.Owner.Name]
+	representativePod := pe.podOwnersToRepresentativePodMap[deletedPod.Namespace][podOwnerKindAndName(deletedPod)]
 	if deletedPod != representativePod { // this was not the representative pod, no need to update
 		return
 	}
 	// deletedPod was the representative pods:
 	// check in pe.podsMap if there are other pods belonging to same owner
 	for _, pod := range pe.podsMap {
-		if pod.Namespace == deletedPod.Namespace && pod.Owner.Name == deletedPod.Owner.Name {
+		if pod.Namespace == deletedPod.Namespace && podOwnerKindAndName(pod) == podOwnerKindAndName(deletedPod) {
 			// replace the representative pod with current pod
-			pe.podOwnersToRepresentativePodMap[deletedPod.Namespace][deletedPod.Owner.Name] = pod
+			pe.podOwnersToRepresentativePodMap[deletedPod.Namespace][podOwnerKindAndName(deletedPod)] = pod
 			return
 		}
 	}
 	// if we get here no remaining pods with same owner, delete the owner entry
-	delete(pe.podOwnersToRepresentativePodMap[deletedPod.Namespace], deletedPod.Owner.Name)
+	delete(pe.podOwnersToRepresentativePodMap[deletedPod.Namespace], podOwnerKindAndName(deletedPod))
 	// if it was the only owner under ns delete the ns entry
 	if len(pe.podOwnersToRepresentativePodMap[deletedPod.Namespace]) == 0 {
 		delete(pe.podOwnersToRepresentativePodMap, deletedPod.Namespace)
